@@ -1,7 +1,9 @@
 (* C03: no premature verdicts.  The statement is the "definitive" clause of the one-step
-   property ExtOK (first theorem).  PARTIAL in the same way as C02: discharged for SkipQuoted,
-   ParseCallIDVal, ParseUIntVal / ParseExpiresVal (every buffer, suffix, offset, object state). *)
-From Sipsp Require Import Harness Resume Ext ExtLeaf.
+   property ExtOK (first theorem), discharged for the same parsers as C02 (every buffer, suffix,
+   offset and object state).  PARTIAL: ParseFLine, ParseHdrLine, ParseHeaders, ParseAllURIParams,
+   ParseAllURIHdrs and the message parser are carried by the correspondence run and the
+   extension oracle only. *)
+From Sipsp Require Import Harness Resume Ext ExtLeaf ExtCSeq ExtTok ExtNameAddr ExtNested ExtLists.
 Theorem C03_definitive_results_are_final :
   forall (S : Type) (P : list byte -> N -> S -> res S) (obs : S -> list Z) (Inv : N -> S -> Prop),
   ExtOK P obs Inv ->
@@ -10,7 +12,7 @@ Theorem C03_definitive_results_are_final :
 Proof. exact (fun S P obs Inv H b x k s0 o e s => no_premature_verdict P obs Inv H b x k s0 o e s). Qed.
 
 Theorem C03_skip_quoted : forall b x k o e s, k <= nnat (length b) ->
-  skip_quoted b k = Done o e s -> e <> EMore -> req (fun _ : unit => []) (skip_quoted (b ++ x) k) (Done o e s).
+  (fun b o (_ : unit) => skip_quoted b o) b k tt = Done o e s -> e <> EMore -> req (fun _ : unit => []) ((fun b o (_ : unit) => skip_quoted b o) (b ++ x) k tt) (Done o e s).
 Proof. exact (fun b x k o e s => no_premature_verdict _ _ _ quoted_ExtOK b x k tt o e s I). Qed.
 
 Theorem C03_callid : forall b x k s0 o e s, k <= nnat (length b) ->
@@ -20,3 +22,31 @@ Proof. exact (fun b x k s0 o e s => no_premature_verdict _ _ _ callid_ExtOK b x 
 Theorem C03_uint_expires : forall b x k s0 o e s, k <= nnat (length b) ->
   parse_uint b k s0 = Done o e s -> e <> EMore -> req obs_uint (parse_uint (b ++ x) k s0) (Done o e s).
 Proof. exact (fun b x k s0 o e s => no_premature_verdict _ _ _ uint_ExtOK b x k s0 o e s I). Qed.
+
+Theorem C03_content_length : forall b x k s0 o e s, k <= nnat (length b) ->
+  parse_clen b k s0 = Done o e s -> e <> EMore -> req obs_uint (parse_clen (b ++ x) k s0) (Done o e s).
+Proof. exact (fun b x k s0 o e s => no_premature_verdict _ _ _ clen_ExtOK b x k s0 o e s I). Qed.
+
+Theorem C03_cseq : forall b x k s0 o e s, k <= nnat (length b) ->
+  parse_cseq b k s0 = Done o e s -> e <> EMore -> req obs_cseq (parse_cseq (b ++ x) k s0) (Done o e s).
+Proof. exact (fun b x k s0 o e s => no_premature_verdict _ _ _ cseq_ExtOK b x k s0 o e s I). Qed.
+
+Theorem C03_nameaddr : forall h, forall b x k s0 o e s, k <= nnat (length b) ->
+  (parse_nameaddr h) b k s0 = Done o e s -> e <> EMore -> req obs_pfrom ((parse_nameaddr h) (b ++ x) k s0) (Done o e s).
+Proof. exact (fun h b x k s0 o e s => no_premature_verdict _ _ _ (nameaddr_ExtOK h) b x k s0 o e s I). Qed.
+
+Theorem C03_one_pai : forall b x k s0 o e s, k <= nnat (length b) ->
+  parse_one_pai b k s0 = Done o e s -> e <> EMore -> req obs_pfrom (parse_one_pai (b ++ x) k s0) (Done o e s).
+Proof. exact (fun b x k s0 o e s => no_premature_verdict _ _ _ onepai_ExtOK b x k s0 o e s I). Qed.
+
+Theorem C03_all_contacts : forall b x k s0 o e s, k <= nnat (length b) ->
+  parse_all_contacts b k s0 = Done o e s -> e <> EMore -> req obs_contacts (parse_all_contacts (b ++ x) k s0) (Done o e s).
+Proof. exact (fun b x k s0 o e s => no_premature_verdict _ _ _ contacts_ExtOK b x k s0 o e s I). Qed.
+
+Theorem C03_all_pais : forall b x k s0 o e s, k <= nnat (length b) ->
+  parse_all_pais b k s0 = Done o e s -> e <> EMore -> req obs_pais (parse_all_pais (b ++ x) k s0) (Done o e s).
+Proof. exact (fun b x k s0 o e s => no_premature_verdict _ _ _ pais_ExtOK b x k s0 o e s I). Qed.
+
+Theorem C03_token_param : forall flags (Hie : tf_ie (tp_decode flags) = false), forall b x k s0 o e s, k <= nnat (length b) ->
+  (parse_tokparam flags) b k s0 = Done o e s -> e <> EMore -> req obs_tokparam ((parse_tokparam flags) (b ++ x) k s0) (Done o e s).
+Proof. exact (fun flags Hie b x k s0 o e s => no_premature_verdict _ _ _ (tokparam_ExtOK flags Hie) b x k s0 o e s I). Qed.
